@@ -12,6 +12,12 @@
 (*   conv configuration: k, d, s, dw, grp, bias, pad (same | int | valid | *)
 (*        causal), pm (zeros | reflect | replicate | circular)             *)
 (*   bn, eps, mom, aff, trs : BatchNorm after the layer and its options    *)
+(*   bn2 : a SECOND BatchNorm object in a row (conv -> bn -> bn)           *)
+(*   bnref = m > 0 : the (first) BatchNorm of this call site is the        *)
+(*        BatchNorm OBJECT owned by site m (one BN after two layers)       *)
+(*   bnown : a reuse site followed by its OWN BatchNorm object instead of  *)
+(*        the owner's (one layer, different BNs at different call sites)   *)
+(*   op "in2" : the second input of a two-stream forward (a.two = "sep")   *)
 (*   excl, reuse, pl (PIT layer placed by the user)                        *)
 (*   sn (SuperNet branches [k, bn]), sno (options the user set on the      *)
 (*        block: hard, gum, temp*10, fav = favoured branch or 0)           *)
@@ -29,10 +35,14 @@
 (*  (3) the export walk.                                                   *)
 (* Impl = "ref"   intended behaviour                                       *)
 (* Impl = "asis"  what plinio does; deviations = the named known findings  *)
-(* Impl = "droppm" | "snreset" | "stalemode"  sanity variants of "asis"    *)
-(*        (the copy of a layer loses its padding_mode / SuperNet(...)      *)
-(*        resets the options of the user's blocks / export() restores the  *)
-(*        mode found at import): every one must VIOLATE an invariant.      *)
+(* Impl = "droppm" | "snreset" | "stalemode" | "nobnstick" | "fusebybn"    *)
+(*        sanity variants of "asis" (the copy of a layer loses its         *)
+(*        padding_mode / SuperNet(...) resets the options of the user's    *)
+(*        blocks / export() restores the mode found at import /            *)
+(*        export(add_bn=False) strips the fused BatchNorm off the layers   *)
+(*        of the search model / a BatchNorm object is fused only at its    *)
+(*        first call site, later sites only lose their node): every one    *)
+(*        must VIOLATE an invariant.                                       *)
 (***************************************************************************)
 EXTENDS Naturals, Integers, Sequences, FiniteSets
 
@@ -42,13 +52,14 @@ EXTENDS Naturals, Integers, Sequences, FiniteSets
 F50_OPEN == TRUE     \* user-placed PIT layers are adopted by reference and fused / folded in place
 F51_OPEN == TRUE     \* fusion once per call site; re-created BatchNorm after one call site only
 F52_OPEN == TRUE     \* nn.Linear on a 3-D tensor: masks are sized after dimension 1, forward / export raise
+F73_OPEN == TRUE     \* conv -> bn -> bn, fold_bn=False: the second fusion overwrites layer.bn, the first BatchNorm is lost
 F53_OPEN == FALSE    \* BatchNorm(affine=False): PITBatchNorm copies weight / bias unconditionally, PIT(...) raises
 Dev(impl, open) == impl = "pinned" \/ (impl # "ref" /\ open)      \* "pinned": every deviation of the pinned commit, repaired or not
 
 (* ------------------------------ accessors ------------------------------- *)
 N(a)        == Len(a.nodes)
 Nd(a, n)    == a.nodes[n]
-Ins(a, n)   == IF n = 0 THEN <<>> ELSE Nd(a, n).ins
+Ins(a, n)   == IF n = 0 THEN <<>> ELSE Nd(a, n).ins          \* (<<>> for the second input "in2")
 In1(a, n)   == Ins(a, n)[1]
 Op(a, n)    == IF n = 0 THEN "in" ELSE Nd(a, n).op
 SeqSet(s)   == {s[i] : i \in DOMAIN s}
@@ -73,6 +84,7 @@ Ch(a, n) ==
     IF n = 0 THEN a.c0
     ELSE LET nd == Nd(a, n) IN
          CASE nd.op = "conv" -> IF nd.dw THEN Ch(a, nd.ins[1]) ELSE nd.out
+           [] nd.op = "in2"  -> a.c0
            [] nd.op = "lin"  -> nd.out
            [] nd.op = "flat" -> Ch(a, nd.ins[1]) * Pow(Sp(a, nd.ins[1]), a.dim)
            [] OTHER          -> Ch(a, nd.ins[1])
@@ -82,6 +94,7 @@ Sp(a, n) ==
          CASE nd.op = "conv" -> IF nd.pad = "valid" THEN ((Sp(a, nd.ins[1]) - nd.d * (nd.k - 1) - 1) \div nd.s) + 1
                                 ELSE ((Sp(a, nd.ins[1]) - 1) \div nd.s) + 1
            [] nd.op = "lin"  -> 1
+           [] nd.op = "in2"  -> a.sp
            [] nd.op = "lin3" -> nd.out
            [] nd.op = "flat" -> 1
            [] nd.op = "pool" -> Sp(a, nd.ins[1]) \div 2
@@ -89,11 +102,11 @@ Sp(a, n) ==
 RECURSIVE IsFlat(_, _)
 IsFlat(a, n) == IF n = 0 THEN FALSE
                 ELSE CASE Op(a, n) \in {"flat", "lin"} -> TRUE
-                       [] Op(a, n) \in {"conv", "lin3"} -> FALSE
+                       [] Op(a, n) \in {"conv", "lin3", "in2"} -> FALSE
                        [] OTHER -> IsFlat(a, In1(a, n))
 
 (* ---------- sharing components of plinio's graph pass (only used to delimit the domain, see InDomain) ---------- *)
-Defining(a, n) == n = 0 \/ (IsLayer(a, n) /\ ~IsDw(a, n))
+Defining(a, n) == n = 0 \/ Op(a, n) = "in2" \/ (IsLayer(a, n) /\ ~IsDw(a, n))
 KeptEdge(a, p, n) == p \in SeqSet(Ins(a, n)) /\ ~Defining(a, n)
 AllNodes(a) == 0..(N(a) + 1)
 Adj(a, x, y) == \/ (y <= N(a) /\ KeptEdge(a, x, y)) \/ (x <= N(a) /\ KeptEdge(a, y, x))
@@ -124,6 +137,21 @@ RBn(dim, o, e, m, aff, trs, ins) ==
 RPool(dim, kind, ins) == Rec("pool", dim, 0, 0, 2, 0, 0, 0, FALSE, 0, "", 0, 0, FALSE, FALSE, kind, 0, 0, ins)
 RComb(nb, ins) == Rec("comb", 0, 0, nb, 0, 0, 0, 0, FALSE, 0, "", 0, 0, FALSE, FALSE, "", 0, 0, ins)
 
+(* ------------------------------ BatchNorm objects ----------------------- *)
+(* BatchNorm objects have identities: 10*m+1 = the first, 10*m+2 = the second BatchNorm object owned by call site m. *)
+(* BnSeq(a, n) = the BatchNorm objects applied, in this order, right after the layer at call site n.                *)
+RECURSIVE BnSeq(_, _)
+BnSeq(a, n) ==
+    IF ~IsLayer(a, n) \/ IsSN(a, n) \/ Op(a, n) = "lin3" THEN <<>>
+    ELSE LET nd == Nd(a, n) IN
+         IF nd.reuse > 0 /\ ~nd.bnown /\ nd.bnref = 0 THEN BnSeq(a, nd.reuse)          \* the whole conv+BN block is re-invoked
+         ELSE LET first == IF nd.bnref > 0 THEN 10 * nd.bnref + 1 ELSE IF nd.bn THEN 10 * n + 1 ELSE 0
+              IN  IF first = 0 THEN <<>> ELSE <<first>> \o (IF nd.bn2 THEN <<10 * n + 2>> ELSE <<>>)
+BnOpts(a, id) == LET nd == Nd(a, id \div 10) IN
+                 [eps |-> IF id % 10 = 2 THEN 1 - nd.eps ELSE nd.eps, mom |-> nd.mom, aff |-> nd.aff, trs |-> nd.trs]
+HasBn(a, n)   == BnSeq(a, n) # <<>>
+BnIds(a, n)   == SeqSet(BnSeq(a, n))
+
 (* ------------------------------ layer configuration --------------------- *)
 (* The configuration of the layer object of owner node o: everything the constructor of the layer was given *)
 (* besides the channel counts and the bias (those are tracked separately).                                  *)
@@ -137,10 +165,11 @@ OrigCfg(a) == [n \in Sites(a) |-> IF IsLayer(a, n) THEN CfgOf(a, Owner(a, n)) EL
 
 (* ------------------------------ flattening ------------------------------ *)
 (* Flat(a, K, B, H, C): layer sequence of architecture a where the layer called at site n has configuration K[n] *)
-(* and bias B[n], is followed by a BatchNorm iff H[n], and SuperNet block n is kept whole (C[n] = 0) or replaced *)
+(* and bias B[n], is followed by the BatchNorm objects H[n] (a sequence), SuperNet block n is kept whole (C[n] = 0) or replaced *)
 (* by its branch C[n].  Accumulator [s |-> records so far, p |-> position of every tensor (p[t+1] = tensor t)].  *)
-Head0(a) == IF a.two = "no" THEN [s |-> <<RIn>>, p |-> <<1>>]
-            ELSE [s |-> <<RIn, RIn, RFun(a.two, <<1, 2>>)>>, p |-> <<3>>]
+Head0(a) == CASE a.two = "no"  -> [s |-> <<RIn>>, p |-> <<1>>]
+              [] a.two = "sep" -> [s |-> <<RIn, RIn>>, p |-> <<1>>]           \* the second input is tensor "in2"
+              [] OTHER         -> [s |-> <<RIn, RIn, RFun(a.two, <<1, 2>>)>>, p |-> <<3>>]
 PosOf(acc, t) == acc.p[t + 1]
 Push(acc, rec) == [acc EXCEPT !.s = Append(@, rec)]
 Last(acc) == Len(acc.s)
@@ -162,13 +191,20 @@ ConvPadCode(c) == CASE c.pad = "same" -> SamePad
                     [] OTHER          -> 0                        \* valid, causal
 ConvPm(c) == IF c.pad \in {"same", "int"} THEN c.pm ELSE "zeros"  \* un-padded layers are built with the default mode
 
+RECURSIVE PushBns(_, _, _, _, _, _)
+PushBns(acc, a, dim, w, ids, i) ==        \* the BatchNorm calls ids[i..] behind the last record
+    IF i > Len(ids) THEN acc
+    ELSE LET o == BnOpts(a, ids[i]) IN
+         PushBns(Push(acc, RBn(dim, w, o.eps, o.mom, o.aff, o.trs, <<Last(acc)>>)), a, dim, w, ids, i + 1)
+
 Emit(acc, a, n, K, B, H, C) ==
     LET nd  == Nd(a, n)
         ld  == LNode(a, n)
         src == PosOf(acc, nd.ins[1])
         cin == Ch(a, nd.ins[1])
         c   == K[n]
-    IN Close(
+    IN IF nd.op = "in2" THEN [acc EXCEPT !.p = Append(@, 2)] ELSE
+       Close(
        CASE nd.op = "conv" /\ IsSN(a, n) ->
                 IF C[n] = 0 THEN Branches(acc, a, n, 1, src, <<>>)
                 ELSE Branch(acc, a, n, nd.sn[C[n]], src)
@@ -177,10 +213,9 @@ Emit(acc, a, n, K, B, H, C) ==
                     s1 == IF c.pad = "causal" THEN Last(a1) ELSE src
                     a2 == Push(a1, RConv(a.dim, cin, Ch(a, n), c.k, c.d, c.s, IF c.dw THEN cin ELSE c.grp, B[n],
                                          ConvPadCode(c), ConvPm(c), <<s1>>))
-                IN  IF H[n] THEN Push(a2, RBn(a.dim, Ch(a, n), ld.eps, ld.mom, ld.aff, ld.trs, <<Last(a2)>>)) ELSE a2
+                IN  PushBns(a2, a, a.dim, Ch(a, n), H[n], 1)
          [] nd.op = "lin" ->
-                LET a2 == Push(acc, RLin(cin, ld.out, B[n], <<src>>))
-                IN  IF H[n] THEN Push(a2, RBn(1, ld.out, ld.eps, ld.mom, ld.aff, ld.trs, <<Last(a2)>>)) ELSE a2
+                PushBns(Push(acc, RLin(cin, ld.out, B[n], <<src>>)), a, 1, ld.out, H[n], 1)
          [] nd.op = "lin3" -> Push(acc, RLin(Sp(a, nd.ins[1]), ld.out, B[n], <<src>>))
          [] nd.op = "pool" -> Push(acc, RPool(a.dim, nd.kind, <<src>>))
          [] nd.op = "add"  -> Push(acc, RFun("add", <<PosOf(acc, nd.ins[1]), PosOf(acc, nd.ins[2])>>))
@@ -192,7 +227,7 @@ FlatFrom(acc, a, n, K, B, H, C) ==
 Flat(a, K, B, H, C) == FlatFrom(Head0(a), a, 1, K, B, H, C)
 
 OrigBias(a) == [n \in Sites(a) |-> IsLayer(a, n) /\ LNode(a, n).bias]
-OrigBn(a)   == [n \in Sites(a) |-> IsLayer(a, n) /\ ~IsSN(a, n) /\ Op(a, n) # "lin3" /\ LNode(a, n).bn]
+OrigBn(a)   == [n \in Sites(a) |-> BnSeq(a, n)]
 NoChoice(a) == [n \in Sites(a) |-> 0]
 OrigSeq(a)  == Flat(a, OrigCfg(a), OrigBias(a), OrigBn(a), NoChoice(a))
 
@@ -209,12 +244,17 @@ Choices(a) == {[n \in Sites(a) |-> IF IsSN(a, n) THEN f[n] ELSE 0] :
 
 (* The property's reading of "the original architecture": the layer sequence of the user's network in which   *)
 (* a folded BatchNorm is absorbed into a bias and every SuperNet block is replaced by one of its branches.    *)
-ExpBias(a, cfg) == [n \in Sites(a) |-> OrigBias(a)[n] \/ (Handled(a, cfg, n) /\ cfg.fold /\ OrigBn(a)[n])]
-ExpBn(a, cfg)   == [n \in Sites(a) |-> OrigBn(a)[n] /\ ~(Handled(a, cfg, n) /\ cfg.fold)]
+\* a layer object can carry its BatchNorm (fused as an attribute, or folded into its weights) only if every call site of the
+\* object is followed by the same BatchNorm objects, and more than one only folded; otherwise the BatchNorm calls must stay
+Fusable(a, cfg, o) == /\ \A n \in CallSites(a, o) : BnSeq(a, n) = BnSeq(a, o)
+                      /\ (Len(BnSeq(a, o)) <= 1 \/ cfg.fold)
+Fused(a, cfg, n)   == Handled(a, cfg, n) /\ HasBn(a, n) /\ Fusable(a, cfg, Owner(a, n))
+ExpBias(a, cfg) == [n \in Sites(a) |-> OrigBias(a)[n] \/ (Fused(a, cfg, n) /\ cfg.fold)]
+ExpBn(a, cfg)   == [n \in Sites(a) |-> IF Fused(a, cfg, n) /\ cfg.fold THEN <<>> ELSE BnSeq(a, n)]
 ExpSeq(a, cfg, c) == Flat(a, OrigCfg(a), ExpBias(a, cfg), ExpBn(a, cfg), c)
 (* ... and of the converted (searchable) graph: same layers with the same configuration; the BatchNorm of a   *)
 (* searchable layer lives inside the layer (fused) or in its weights (folded)                                 *)
-NasBn(a, cfg)   == [n \in Sites(a) |-> OrigBn(a)[n] /\ ~Handled(a, cfg, n)]
+NasBn(a, cfg)   == [n \in Sites(a) |-> IF Fused(a, cfg, n) THEN <<>> ELSE BnSeq(a, n)]
 NasSeq(a, cfg)  == Flat(a, OrigCfg(a), ExpBias(a, cfg), NasBn(a, cfg), NoChoice(a))
 \* the configuration part of a layer sequence: conv / linear records without their wiring
 CfgOnly(s) == LET idx == {i \in DOMAIN s : s[i].t \in {"conv", "lin"}}
@@ -225,22 +265,22 @@ CfgOnly(s) == LET idx == {i \in DOMAIN s : s[i].t \in {"conv", "lin"}}
 
 (* ------------------------------ object level ---------------------------- *)
 WSym(o, c) == [s |-> "W", o |-> o, c |-> c]
-B(o)       == [s |-> "B", o |-> o]
-Rep(o, k)  == [i \in 1..k |-> B(o)]
+B(id)      == [s |-> "B", o |-> id]
+Bs(ids)    == [i \in 1..Len(ids) |-> B(ids[i])]
 
 \* the layer objects of the user's model, as written by the user
 UserHeap(a, cfg) ==
     [o \in Owners(a) |->
-        [pit |-> Nd(a, o).pl, cfg |-> CfgOf(a, o), nfold |-> 0, bias |-> Nd(a, o).bias, bnattr |-> FALSE,
+        [pit |-> Nd(a, o).pl, cfg |-> CfgOf(a, o), folded |-> <<>>, bias |-> Nd(a, o).bias, bn |-> 0, fusedset |-> {},
          fold |-> Nd(a, o).pl /\ cfg.fold, buf |-> FALSE]]
 DefaultOpt(o) == [hard |-> FALSE, gum |-> o.gum, temp |-> 10, fav |-> o.fav]
 UserOpts(a) == [n \in SNSites(a) |-> Nd(a, n).sno]
 
 OrigTerm(a, n) ==
     IF IsSN(a, n) THEN <<[s |-> "SN", o |-> n, opt |-> Nd(a, n).sno]>>
-    ELSE <<WSym(Owner(a, n), CfgOf(a, Owner(a, n)))>> \o (IF OrigBn(a)[n] THEN <<B(Owner(a, n))>> ELSE <<>>)
-\* forward of one layer object: its weights (configuration; everything folded into them), then its fused BatchNorm
-ObjFwd(ob, o) == <<WSym(o, ob.cfg)>> \o Rep(o, ob.nfold) \o (IF ob.pit /\ ob.bnattr /\ ~ob.fold THEN <<B(o)>> ELSE <<>>)
+    ELSE <<WSym(Owner(a, n), CfgOf(a, Owner(a, n)))>> \o Bs(BnSeq(a, n))
+\* forward of one layer object: its weights (configuration; everything folded into them), then its fused BatchNorm attribute
+ObjFwd(ob, o) == <<WSym(o, ob.cfg)>> \o Bs(ob.folded) \o (IF ob.pit /\ ob.bn # 0 /\ ~ob.fold THEN <<B(ob.bn)>> ELSE <<>>)
 
 (* Conversion.  Result: [ok, uh: heap of the user's objects after the call, ch: heap of copies made by the    *)
 (* converter (meaningful where copied[o]), bnode: site -> the converted graph still has a BatchNorm node after *)
@@ -250,41 +290,58 @@ Copied(impl, a, cfg, o) ==
     /\ \/ (cfg.auto /\ ~Nd(a, o).pl /\ ~Nd(a, o).excl /\ ~IsSN(a, o))        \* autoimport: a new PIT layer
        \/ (~Dev(impl, F50_OPEN) /\ Nd(a, o).pl)                             \* reference: adopt a copy
 
-FuseOnce(ob, cfg) ==
-    [ob EXCEPT !.bnattr = TRUE,
-               !.nfold = IF cfg.fold THEN @ + 1 ELSE @,
+\* fusion_fn(layer, bn): layer.bn = copy of bn (overwriting what was there); with fold_bn also folded into weights and bias
+FuseOnce(ob, cfg, id) ==
+    [ob EXCEPT !.bn = id, !.fusedset = @ \cup {id},
+               !.folded = IF cfg.fold THEN Append(@, id) ELSE @,
                !.bias = IF cfg.fold THEN TRUE ELSE @]
+RECURSIVE FuseIds(_, _, _, _, _, _)
+FuseIds(impl, ob, cfg, ids, i, seen) ==        \* as implemented: every BatchNorm node behind the layer call, in order
+    IF i > Len(ids) THEN ob
+    ELSE IF (~Dev(impl, F51_OPEN) /\ ids[i] \in ob.fusedset)       \* (repaired F51: a (layer, BatchNorm) pair is fused once)
+            \/ (impl = "fusebybn" /\ ids[i] \in seen)              \* sanity variant: "this BatchNorm has been fused already"
+         THEN FuseIds(impl, ob, cfg, ids, i + 1, seen)
+         ELSE FuseIds(impl, FuseOnce(ob, cfg, ids[i]), cfg, ids, i + 1, seen)
 
-\* BatchNorm fusion over the call sites n..N in graph order.  st = [uh, ch, bnode]
+\* BatchNorm fusion over the call sites n..N in graph order.  st = [uh, ch, bnode, seen (BatchNorm objects met so far)]
 RECURSIVE FusePass(_, _, _, _, _, _)
 FusePass(impl, a, cfg, copied, st, n) ==
     IF n > N(a) THEN st
-    ELSE IF ~(IsLayer(a, n) /\ st.bnode[n] /\ Handled(a, cfg, n)) THEN FusePass(impl, a, cfg, copied, st, n + 1)
+    ELSE IF ~(IsLayer(a, n) /\ st.bnode[n] # <<>> /\ Handled(a, cfg, n)) THEN FusePass(impl, a, cfg, copied, st, n + 1)
     ELSE LET o   == Owner(a, n)
              cur == IF copied[o] THEN st.ch[o] ELSE st.uh[o]
-             new == IF ~Dev(impl, F51_OPEN) /\ cur.bnattr THEN cur ELSE FuseOnce(cur, cfg)
-             st2 == IF copied[o] THEN [st EXCEPT !.ch[o] = new, !.bnode[n] = FALSE]
-                    ELSE [st EXCEPT !.uh[o] = new, !.bnode[n] = FALSE]
+             ids == st.bnode[n]
+             \* reference (and repaired F73): BatchNorm calls a layer object cannot carry stay in the graph
+             keep == (impl = "ref" /\ ~Fusable(a, cfg, o)) \/ (~Dev(impl, F73_OPEN) /\ Len(ids) > 1 /\ ~cfg.fold)
+             new == IF keep THEN cur
+                    ELSE IF impl = "ref" /\ cur.bn # 0 THEN cur               \* reference: once per layer object
+                    ELSE FuseIds(impl, cur, cfg, ids, 1, st.seen)
+             nb  == IF keep THEN ids ELSE <<>>
+             st2 == IF copied[o] THEN [st EXCEPT !.ch[o] = new, !.bnode[n] = nb, !.seen = @ \cup SeqSet(ids)]
+                    ELSE [st EXCEPT !.uh[o] = new, !.bnode[n] = nb, !.seen = @ \cup SeqSet(ids)]
          IN  FusePass(impl, a, cfg, copied, st2, n + 1)
 
 \* MPS folds every Conv2d/Linear + BatchNorm pair into the CALLER's layer object, by design (recorded, not claimed)
-MpsFolds(a, n) == IsLayer(a, n) /\ OrigBn(a)[n] /\ ~(Op(a, n) = "conv" /\ a.dim = 1)
+MpsFolds(a, n) == IsLayer(a, n) /\ HasBn(a, n) /\ ~(Op(a, n) = "conv" /\ a.dim = 1)
 
 (* ------------------------------ known findings / documented rejections -- *)
 \* F50: a PIT layer placed by the user and followed by a BatchNorm is fused / folded IN the user's own object
-KF_PlacedBN(a, cfg) == \E n \in PlainSites(a) : cfg.method = "PIT" /\ LNode(a, n).pl /\ OrigBn(a)[n]
+KF_PlacedBN(a, cfg) == \E n \in PlainSites(a) : cfg.method = "PIT" /\ LNode(a, n).pl /\ HasBn(a, n)
 \* F51: a conv/linear + BatchNorm pair invoked at several call sites that the converter makes searchable
-KF_ReuseBN(a, cfg)  == \E n \in PlainSites(a) : Handled(a, cfg, n) /\ OrigBn(a)[n]
-                                                 /\ Cardinality(CallSites(a, Owner(a, n))) > 1
+KF_ReuseBN(a, cfg)  == \E n \in PlainSites(a) : Handled(a, cfg, n) /\ Cardinality(CallSites(a, Owner(a, n))) > 1
+                                                 /\ \E m \in CallSites(a, Owner(a, n)) : HasBn(a, m)
+\* F73: two BatchNorm objects in a row behind a searchable layer, not folded: the second fusion overwrites layer.bn
+KF_DoubleBN(a, cfg) == \E n \in PlainSites(a) : Handled(a, cfg, n) /\ Len(BnSeq(a, n)) > 1 /\ ~cfg.fold
 \* F52: a searchable nn.Linear applied to a 3-D tensor (features on the last axis, masks sized after axis 1)
 KF_Lin3(a, cfg)     == \E n \in PlainSites(a) : Op(a, n) = "lin3" /\ Handled(a, cfg, n)
 \* F53: autoconversion of a BatchNorm without affine parameters (every BatchNorm of the traced graph is rewritten)
-KF_BnNoAffine(a, cfg) == cfg.method = "PIT" /\ cfg.auto /\ \E n \in PlainSites(a) : OrigBn(a)[n] /\ ~LNode(a, n).aff
+KF_BnNoAffine(a, cfg) == cfg.method = "PIT" /\ cfg.auto /\ \E n \in PlainSites(a) : \E id \in BnIds(a, n) : ~BnOpts(a, id).aff
 \* documented rejections (plinio raises an error that says so): skipped and counted, never reported
-Rej_Trs(a, cfg)    == \E n \in PlainSites(a) : Handled(a, cfg, n) /\ OrigBn(a)[n] /\ ~LNode(a, n).trs
+Rej_Trs(a, cfg)    == \E n \in PlainSites(a) : Handled(a, cfg, n) /\ \E id \in BnIds(a, n) : ~BnOpts(a, id).trs
 Rej_Groups(a, cfg) == \E n \in PlainSites(a) : Handled(a, cfg, n) /\ Op(a, n) = "conv" /\ ~LNode(a, n).dw /\ LNode(a, n).grp > 1
 Rejected(a, cfg)   == Rej_Trs(a, cfg) \/ Rej_Groups(a, cfg)
 SupportedImport(a, cfg) == ~KF_PlacedBN(a, cfg) /\ ~KF_ReuseBN(a, cfg) /\ ~KF_Lin3(a, cfg) /\ ~KF_BnNoAffine(a, cfg)
+                           /\ ~KF_DoubleBN(a, cfg)
 
 \* Topologies that are findings of the graph pass itself (C09: F19 depthwise layer whose sharing component has no
 \* features-defining node - here: directly on the concatenation of the two inputs; F24 producers of different widths in
@@ -297,7 +354,7 @@ Convert(impl, a, cfg) ==
     LET uh0    == UserHeap(a, cfg)
         copied == [o \in Owners(a) |-> Copied(impl, a, cfg, o)]
         ch0    == [o \in Owners(a) |-> [uh0[o] EXCEPT !.pit = TRUE, !.fold = cfg.fold, !.cfg = CopyCfg(impl, @)]]
-        st0    == [uh |-> uh0, ch |-> ch0, bnode |-> OrigBn(a)]
+        st0    == [uh |-> uh0, ch |-> ch0, bnode |-> OrigBn(a), seen |-> {}]
         st1    == IF cfg.method = "PIT" THEN FusePass(impl, a, cfg, copied, st0, 1) ELSE st0
         \* register_input_features: every searchable layer object receives the calculator buffers
         mark(h, which) == [o \in Owners(a) |->
@@ -315,18 +372,18 @@ Convert(impl, a, cfg) ==
 NasObj(cv, o)  == IF cv.copied[o] THEN cv.ch[o] ELSE cv.uh[o]
 NasTerm(a, cv, n) ==
     IF IsSN(a, n) THEN <<[s |-> "SN", o |-> n, opt |-> cv.sopt[n]]>>           \* the combiners ARE the user's objects
-    ELSE LET o == Owner(a, n) IN ObjFwd(NasObj(cv, o), o) \o (IF cv.bnode[n] THEN <<B(o)>> ELSE <<>>)
+    ELSE LET o == Owner(a, n) IN ObjFwd(NasObj(cv, o), o) \o Bs(cv.bnode[n])
 \* the user's own forward after the conversion: his graph (Python code) is unchanged, his objects may not be
 UserTerm(a, cv, n) ==
     IF IsSN(a, n) THEN <<[s |-> "SN", o |-> n, opt |-> cv.sopt[n]]>>
-    ELSE LET o == Owner(a, n) IN ObjFwd(cv.uh[o], o) \o (IF OrigBn(a)[n] THEN <<B(o)>> ELSE <<>>)
+    ELSE LET o == Owner(a, n) IN ObjFwd(cv.uh[o], o) \o Bs(BnSeq(a, n))
 
 (* ------------------------------ the property ---------------------------- *)
 FnPreserved(a, cv)    == \A n \in Layers(a) : NasTerm(a, cv, n) = OrigTerm(a, n)
-UserParamsKept(a, cfg, cv) == \A o \in Owners(a) : cv.uh[o].nfold = 0 /\ cv.uh[o].bias = Nd(a, o).bias
+UserParamsKept(a, cfg, cv) == \A o \in Owners(a) : cv.uh[o].folded = <<>> /\ cv.uh[o].bias = Nd(a, o).bias
 UserFnKept(a, cv)     == \A n \in Layers(a) : UserTerm(a, cv, n) = OrigTerm(a, n)
 UserOptsKept(a, cv)   == cv.sopt = UserOpts(a)
-UserKeysKept(a, cv)   == \A o \in Owners(a) : ~cv.uh[o].buf /\ ~cv.uh[o].bnattr
+UserKeysKept(a, cv)   == \A o \in Owners(a) : ~cv.uh[o].buf /\ cv.uh[o].bn = 0
 \* field by field: the layer object the search works on has the configuration of the layer it replaces
 ImportedConfig(a, cfg, cv) == \A n \in PlainSites(a) : NasObj(cv, Owner(a, n)).cfg = CfgOf(a, Owner(a, n))
 ModeKept(cfg, cv)     == cv.wtrain = (cfg.mode = "train") /\ cv.strain = (cfg.mode = "train")
@@ -337,12 +394,14 @@ ModeKept(cfg, cv)     == cv.wtrain = (cfg.mode = "train") /\ cv.strain = (cfg.mo
 (* the re-created BatchNorm after that site only; the other sites then call a plain layer and are skipped.    *)
 (* The exported layer is constructed from the attributes of the searchable layer object.                      *)
 BnSite(a, o) == CHOOSE m \in CallSites(a, o) : \A x \in CallSites(a, o) : x <= m
+\* the BatchNorm calls behind call site n of the exported graph: the one re-created from the layer's fused attribute, then
+\* the calls that were never fused
 ExportBn(impl, a, cfg, cv) ==
     [n \in Sites(a) |->
-        IF ~IsLayer(a, n) \/ IsSN(a, n) THEN FALSE
+        IF ~IsLayer(a, n) \/ IsSN(a, n) THEN <<>>
         ELSE LET o == Owner(a, n) ob == NasObj(cv, o) IN
-             \/ cv.bnode[n]
-             \/ (Handled(a, cfg, n) /\ ob.bnattr /\ ~ob.fold /\ (~Dev(impl, F51_OPEN) \/ n = BnSite(a, o)))]
+             (IF Handled(a, cfg, n) /\ ob.bn # 0 /\ ~ob.fold /\ (~Dev(impl, F51_OPEN) \/ n = BnSite(a, o)) THEN <<ob.bn>> ELSE <<>>)
+             \o cv.bnode[n]]
 ExportBias(a, cv) == [n \in Sites(a) |-> IsLayer(a, n) /\ NasObj(cv, Owner(a, n)).bias]
 ExportCfg(a, cv)  == [n \in Sites(a) |-> IF IsLayer(a, n) THEN NasObj(cv, Owner(a, n)).cfg ELSE <<>>]
 ExportChoice(a, cfg) == IF cfg.method = "SN" THEN FavChoice(a) ELSE NoChoice(a)
@@ -352,11 +411,16 @@ ExportSeq(impl, a, cfg, cv) ==
 MultiOwners(a) == {o \in Owners(a) : Cardinality(CallSites(a, o)) > 1}
 AsisBnVariants(a, cfg, cv) ==
     {[n \in Sites(a) |->
-        IF ~IsLayer(a, n) \/ IsSN(a, n) THEN FALSE
+        IF ~IsLayer(a, n) \/ IsSN(a, n) THEN <<>>
         ELSE LET o == Owner(a, n) ob == NasObj(cv, o) IN
-             cv.bnode[n] \/ (Handled(a, cfg, n) /\ ob.bnattr /\ ~ob.fold
-                                /\ n = (IF o \in MultiOwners(a) THEN pick[o] ELSE BnSite(a, o)))]
+             (IF Handled(a, cfg, n) /\ ob.bn # 0 /\ ~ob.fold
+                    /\ n = (IF o \in MultiOwners(a) THEN pick[o] ELSE BnSite(a, o)) THEN <<ob.bn>> ELSE <<>>)
+             \o cv.bnode[n]]
      : pick \in {f \in [MultiOwners(a) -> Sites(a)] : \A o \in MultiOwners(a) : f[o] \in CallSites(a, o)}}
+
+\* export(add_bn=False) as the sanity variant "nobnstick" performs it: the fused BatchNorm is taken off the SEARCH model's layers
+StripBn(cv) == [cv EXCEPT !.uh = [o \in DOMAIN cv.uh |-> [cv.uh[o] EXCEPT !.bn = 0]],
+                          !.ch = [o \in DOMAIN cv.ch |-> [cv.ch[o] EXCEPT !.bn = 0]]]
 
 ExportIso(impl, a, cfg, cv) == ExportSeq(impl, a, cfg, cv) = ExpSeq(a, cfg, ExportChoice(a, cfg))
 =============================================================================
